@@ -8,7 +8,9 @@ PROP = dict(
                 "(crash image, failing write through the function, failing write under the real pruner service that shares its in-memory "
                 "retention floor with the Blockchain); the pruning policy itself is C16's."),
     rule=("scripts of 4-10 ops over store/revert/set-L1-head/persist-snapshot/graceful/ungraceful restart on both state backends, 12% on the 8188-block base "
-          "(real window rollover); non-trivial = fault inside a store or revert; distinct = SHA-256 of the op list (block hashes included). "
+          "(real window rollover; half of those follow a skeleton: stores reaching/crossing 8192, optional graceful restart, ungraceful restart, then the first "
+          "accesses of the lazily initialised running filter); fault points always include the first commit after the last restart and the stores of the "
+          "last/first block of a bloom window; after a failed store a drawn detour reverts and re-stores the head before the retry; non-trivial = fault inside a store or revert; distinct = SHA-256 of the op list (block hashes included). "
           "Prune test: chains of 22-40 blocks, optional earlier prune, 1-byte or default batches, fault at every (quick: 4 drawn) committed write; "
           "non-trivial = fault strictly inside the prune."),
     assumptions=["memory backend image = crash image (Pebble batch atomicity / WAL trusted)", "pruning policy (which floor is chosen) is exercised in C16, not here"],
